@@ -436,7 +436,7 @@ fn summary_part(ctx: &Ctx, res: &mut PartResult, maxlen: usize) {
     res.sample(json!({"buckets": "3x20s", "samples_t_ms": [0, 19000, 41000], "snapshot_t_ms": 61000}));
 }
 
-/// The same window semantics through the builder: `set_bucket_duration` x `set_bucket_count` x `set_quantiles`
+/// The same window semantics through the builder: `set_bucket_duration` x `set_bucket_count` (both, either one alone, neither) x `set_quantiles`
 /// -> `build_recorder` -> real handles -> `render()`, with quanta's clock overridden by a mock for the thread.
 fn summary_render(ctx: &Ctx, res: &mut PartResult, maxlen: usize) {
     res.engine = "E3 sample timelines x render times through PrometheusBuilder (bucket duration/count) + render() under a mock quanta clock".into();
@@ -444,8 +444,10 @@ fn summary_render(ctx: &Ctx, res: &mut PartResult, maxlen: usize) {
     let values = [-2.5, 1.0, 3.5, 1e6, 0.5, -7.0];
     let alpha = 0.0001f64;
     // None = builder defaults, documented as 3 buckets of 20 s
-    for cfgd in [Some((3u32, 20_000u64)), Some((1, 10_000)), Some((2, 7_000)), Some((2, 1_500)), Some((4, 250)), None] {
-        let (count, d) = cfgd.unwrap_or((3, 20_000));
+    // (count, duration ms, which of the two options the builder is given: 3 = both, 1 = the count only (duration stays at
+    // its documented default of 20 s), 2 = the duration only (count stays at 3), 0 = neither)
+    for (count, d, given) in [(3u32, 20_000u64, 3u8), (1, 10_000, 3), (2, 7_000, 3), (2, 1_500, 3), (4, 250, 3), (3, 20_000, 0), (1, 20_000, 1), (5, 20_000, 1), (3, 7_000, 2)] {
+        let cfgd = Some((count, d, given));
         let w = count as u64 * d;
         let mut times: Vec<u64> = vec![0, d - 1, d, d + d / 2 + 1, w - 1, w, w + 1, 2 * w - 1, 2 * w];
         times.sort();
@@ -462,8 +464,11 @@ fn summary_render(ctx: &Ctx, res: &mut PartResult, maxlen: usize) {
                     res.executions += 1;
                     let (clock, mock) = Clock::mock();
                     let mut b = PrometheusBuilder::new().set_quantiles(&[0.0, 0.5, 1.0]).unwrap();
-                    if cfgd.is_some() {
-                        b = b.set_bucket_duration(Duration::from_millis(d)).unwrap().set_bucket_count(NonZeroU32::new(count).unwrap());
+                    if given & 2 != 0 {
+                        b = b.set_bucket_duration(Duration::from_millis(d)).unwrap();
+                    }
+                    if given & 1 != 0 {
+                        b = b.set_bucket_count(NonZeroU32::new(count).unwrap());
                     }
                     let rec = b.build_recorder();
                     let mut samples: Vec<(u64, f64)> = Vec::new();
@@ -555,7 +560,7 @@ fn summary_render(ctx: &Ctx, res: &mut PartResult, maxlen: usize) {
     }
     res.states = states.len();
     res.distinct_outcomes = states.len();
-    res.bound = json!({"max_samples": maxlen, "builder_configs": "3x20s, 1x10s, 2x7s, 2x1.5s, 4x250ms, defaults (3x20s); times in ms"});
+    res.bound = json!({"max_samples": maxlen, "builder_configs": "3x20s, 1x10s, 2x7s, 2x1.5s, 4x250ms (both options given), defaults (3x20s), count only (1, 5), duration only (7s); times in ms"});
     res.sample(json!({"builder": "set_bucket_duration(7s).set_bucket_count(2)", "samples_t_ms": [0, 6000], "render_t_ms": 15000, "expected": "quantiles 0 (window empty), _count 2"}));
 }
 
